@@ -101,6 +101,17 @@ class Unk:
         return f"?{self.tag}"
 
 
+class OrderedUnk(Unk):
+    """`sorted(xs)` / `sorted(xs, reverse=...)` of an unknown collection of plain values: unknown, but ascending/descending."""
+    __slots__ = ("reverse",)
+
+
+class MapV(Unk):
+    """`[elt(x) for x in coll]` over a collection known only abstractly: unknown as a list, but element i is elt(coll[i]) as
+    long as nothing the expression reads has been written since (`mark`)."""
+    __slots__ = ("key", "var", "elt", "env", "mark", "mark_ev")
+
+
 class ListV:
     """A list/tuple value whose items are known abstractly.  fresh=True: built on this path."""
     __slots__ = ("items", "fresh", "kind")
@@ -125,10 +136,11 @@ class CollV:
     """A collection known only through what holds for all of its elements: `base` is the access
     path (or tag) of the collection it was drawn from, `preds` a list of (param name, test expr)
     that every element satisfies (filter lambdas, comprehension conditions)."""
-    __slots__ = ("base", "preds", "typ", "kind", "cpreds")
+    __slots__ = ("base", "preds", "typ", "kind", "cpreds", "reverse")
 
     def __init__(self, base, preds, typ=None, kind="list", cpreds=()):
         self.base, self.preds, self.typ, self.kind = base, list(preds), typ, kind
+        self.reverse = None   # False / True: the result of a plain sorted(...) / sorted(..., reverse=True)
         self.cpreds = list(cpreds)   # canonical text of each predicate at the moment it was added (objects by access path)
 
     def __eq__(self, o):
@@ -311,6 +323,46 @@ class Cond(Ev):
     def __init__(self, text, truth, forked, node, func, stack):
         super().__init__(node, func, stack)
         self.text, self.truth, self.forked = text, truth, forked
+        self.vnames = ()
+        self.vtags = ()   # access paths of the unknown values the test reads (a flag handed to a helper under another name)
+
+    def mentions(self, name):
+        """Does the test read `name` -- by its text or by the value a local stands for?"""
+        return name in self.text or any(name in t for t in self.vtags)
+
+    def _stands_for(self, local, name):
+        return any(n == local and name in t for n, t in zip(self.vnames, self.vtags))
+
+    def establishes(self, name):
+        """The truth this branch establishes for a flag the test reads (`if flag:` taken, `if not flag:` not taken -> True);
+        None when the test does not read the flag or is not a plain (negated) read of it."""
+        if not self.mentions(name):
+            return None
+        def atom(t, truth):
+            neg = False
+            while isinstance(t, ast.UnaryOp) and isinstance(t.op, ast.Not):
+                neg, t = not neg, t.operand
+            if isinstance(t, ast.BoolOp):
+                # a conjunction that holds makes every conjunct hold; a disjunction that fails makes every disjunct fail
+                if isinstance(t.op, ast.And) == (truth != neg):
+                    for x in t.values:
+                        if name in ast.unparse(x) or any(isinstance(n, ast.Name) and self._stands_for(n.id, name) for n in ast.walk(x)):
+                            r = atom(x, truth != neg)
+                            if r is not None:
+                                return r
+                return None
+            if isinstance(t, ast.Compare) and len(t.ops) == 1 and isinstance(t.comparators[0], ast.Constant) and t.comparators[0].value in (True, False) \
+                    and isinstance(t.ops[0], (ast.Is, ast.Eq, ast.IsNot, ast.NotEq)):
+                neg ^= (t.comparators[0].value is False) ^ isinstance(t.ops[0], (ast.IsNot, ast.NotEq))
+                t = t.left
+            if isinstance(t, ast.Call) and isinstance(t.func, ast.Name) and t.func.id == "bool" and len(t.args) == 1:
+                t = t.args[0]
+            if not isinstance(t, (ast.Name, ast.Attribute)):
+                return None
+            if not (name in ast.unparse(t) or (isinstance(t, ast.Name) and self._stands_for(t.id, name))):
+                return None
+            return truth != neg
+        return atom(ast.parse(self.text, mode="eval").body, self.truth)
 
     def __repr__(self):
         return f"cond {'' if self.truth else 'not '}({self.text}){'?' if self.forked else ''} @{self.loc}"
@@ -755,7 +807,29 @@ class Interp:
             args["__extra_kw__"] = extra
         return args
 
+    def _pair_select(self, s):
+        """`x = (A, B)[bool(c)]` / `(A, B)[c]` with c a comparison: the conditional expression `B if c else A`, provided A and B
+        are literals whose evaluation has no effect (so evaluating only one of them changes nothing).  -> statement or None."""
+        v = s.value
+        if not (isinstance(v, ast.Subscript) and isinstance(v.value, (ast.Tuple, ast.List)) and len(v.value.elts) == 2):
+            return None
+        c = v.slice
+        if isinstance(c, ast.Call) and isinstance(c.func, ast.Name) and c.func.id == "bool" and len(c.args) == 1 and not c.keywords:
+            c = c.args[0]
+        elif not (isinstance(c, (ast.Compare, ast.BoolOp)) or (isinstance(c, ast.UnaryOp) and isinstance(c.op, ast.Not))):
+            return None
+        if any(isinstance(n, (ast.Call, ast.NamedExpr, ast.Await, ast.Yield)) for x in v.value.elts for n in ast.walk(x)):
+            return None
+        memo = self.__dict__.setdefault("_pair_memo", {})
+        if id(s) not in memo:
+            ife = ast.copy_location(ast.IfExp(test=c, body=v.value.elts[1], orelse=v.value.elts[0]), v)
+            s2 = ast.Return(value=ife) if isinstance(s, ast.Return) else ast.Assign(targets=s.targets, value=ife, type_comment=None)
+            memo[id(s)] = (s, ast.copy_location(s2, s))
+        return memo[id(s)][1]
+
     def _exec_stmt(self, s, st, fr):
+        if isinstance(s, (ast.Assign, ast.Return)) and isinstance(s.value, ast.Subscript):
+            s = self._pair_select(s) or s
         # `x = A if C else B` / `return A if C else B` with an undecided C is the if-statement it abbreviates
         if isinstance(s, ast.Return) and isinstance(s.value, ast.IfExp) and self.truth(s.value.test, st, fr) is None:
             outs = []
@@ -779,8 +853,9 @@ class Interp:
                 va, vb = self.eval(s.value.body, st, fr), self.eval(s.value.orelse, st, fr)
             finally:
                 self._quiet -= 1
-            if isinstance(va, (BoundV, FuncV)) and isinstance(vb, (BoundV, FuncV)):
+            if (isinstance(va, (BoundV, FuncV)) and isinstance(vb, (BoundV, FuncV))) or (isinstance(va, DictV) and isinstance(vb, DictV)):
                 # `f = self.a if cond else self.b`: which code runs later depends on the condition -- one path each
+                # (likewise two tables of keyword arguments: which call is made later depends on the condition)
                 outs = []
                 for st1, truth, forked in self.branch(s.value.test, st, fr):
                     s2 = ast.copy_location(ast.Assign(targets=s.targets, value=(s.value.body if truth else s.value.orelse), type_comment=None), s)
@@ -808,6 +883,39 @@ class Interp:
                             outs.extend(self._exec_stmt(s, s2, fr))
                     if outs:
                         return outs
+            # selection from a table by an enum-valued local that is not decided yet (`next(row for k, row in table if key == k)`):
+            # one path per member, when that decides the selection for every member
+            if isinstance(look, ast.Call) and isinstance(look.func, ast.Name) and look.func.id == "next" and look.args and isinstance(look.args[0], ast.GeneratorExp):
+                self._quiet += 1
+                try:
+                    v0 = self.eval(look, st.copy(), fr)
+                finally:
+                    self._quiet -= 1
+                if isinstance(v0, Unk):
+                    bound = {x.id for c in ast.walk(look) if isinstance(c, ast.comprehension) for x in ast.walk(c.target) if isinstance(x, ast.Name)}
+                    for nm in [n for n in ast.walk(look) if isinstance(n, ast.Name) and n.id not in bound and isinstance(st.env.get(n.id), EnumSet)]:
+                        kv = st.env[nm.id]
+                        if kv.single() is not None or not (1 < len(kv.members) <= 8):
+                            continue
+                        cases = []
+                        for m in sorted(kv.members):
+                            s2 = st.copy()
+                            if not self.refine(nm, EnumSet(kv.cls, [m]), s2, fr):
+                                continue
+                            self._quiet += 1
+                            try:
+                                vm = self.eval(look, s2.copy(), fr)
+                            finally:
+                                self._quiet -= 1
+                            if isinstance(vm, Unk):
+                                cases = None
+                                break
+                            cases.append(s2)
+                        if cases:
+                            outs = []
+                            for s2 in cases:
+                                outs.extend(self._exec_stmt(s, s2, fr))
+                            return outs
             unpack = isinstance(s.value, (ast.Tuple, ast.List)) and any(isinstance(t, (ast.Tuple, ast.List)) for t in s.targets)
             if unpack:
                 self._no_refs = getattr(self, "_no_refs", 0) + 1   # `a, b = (x.p, x.q)` copies the values of the right-hand side
@@ -902,8 +1010,19 @@ class Interp:
 
     def exec_if(self, s, st, fr):
         outs = []
+        vtags = []
+        self._quiet += 1
+        try:
+            for n in ast.walk(s.test):
+                if isinstance(n, ast.Name) and n.id in st.env and isinstance(st.env[n.id], Unk) and st.env[n.id].tag != n.id:
+                    vtags.append((n.id, st.env[n.id].tag))
+        finally:
+            self._quiet -= 1
         for st1, truth, forked in self.branch(s.test, st, fr):
-            st1.trace.append(Cond(ast.unparse(s.test), truth, forked, s, fr.func, fr.stack))
+            cv = Cond(ast.unparse(s.test), truth, forked, s, fr.func, fr.stack)
+            cv.vtags = tuple(t for _n, t in vtags)
+            cv.vnames = tuple(n for n, t in vtags)
+            st1.trace.append(cv)
             outs.extend(self.exec_block(s.body if truth else s.orelse, st1, fr))
         return outs
 
@@ -1132,7 +1251,65 @@ class Interp:
             parts.append(e)
         return parts
 
+    def _zip_map_loop(self, s, st, fr):
+        """`for x, f in zip(coll, flags)` with `flags = [elt(y) for y in coll]` computed beforehand == `for x in coll:
+        f = elt(x)`, provided nothing elt reads is written in between or by the loop body.  -> the equivalent loop or None."""
+        it = s.iter
+        if not (isinstance(it, ast.Call) and isinstance(it.func, ast.Name) and it.func.id == "zip" and len(it.args) >= 2 and not it.keywords
+                and isinstance(s.target, ast.Tuple) and len(s.target.elts) == len(it.args) and all(isinstance(t, ast.Name) for t in s.target.elts)):
+            return None
+        self._quiet += 1
+        try:
+            vals = [self.eval(a, st, fr) for a in it.args]
+        finally:
+            self._quiet -= 1
+        key = self.path_of(vals[0], ast.unparse(it.args[0]))
+        if isinstance(vals[0], ListV) or key in self.collections or not all(isinstance(m, MapV) and m.key == key for m in vals[1:]):
+            return None
+        written = set(self._assigned_in(s.body)[1]) | set(self._callee_write_attrs(s.body, fr))
+        x0 = s.target.elts[0].id
+        pre = []
+        for tgt, m in zip(s.target.elts[1:], vals[1:]):
+            if len(st.trace) < m.mark or (m.mark and st.trace[m.mark - 1] is not m.mark_ev):
+                return None
+            w = set(written)
+            for ev in flatten(st.trace[m.mark:]):
+                if isinstance(ev, (Store, Mut)):
+                    w.add(ev.attr)
+                elif isinstance(ev, Call) and not ev.inlined:
+                    for q in ev.callees or ():
+                        c, _, n = q.partition(".")
+                        g0 = self.repo.lookup_method(c, n) if n else self.repo.functions.get(c)
+                        if g0 is None:
+                            return None
+                        for g in self.eff.reachable([g0], precise=False):
+                            w |= {ef.attr for ef in self.eff.of(g) if ef.kind in ("store", "mut", "del")}
+            reads = set(self.pred_reads(m.elt, fr)) | {key.rsplit(".", 1)[-1]}
+            if reads & w:
+                return None
+            for n in ast.walk(m.elt):
+                if isinstance(n, ast.Name) and n.id != m.var and n.id in m.env and st.env.get(n.id) is not m.env[n.id] and not _same(st.env.get(n.id), m.env[n.id]):
+                    return None
+            memo = self.__dict__.setdefault("_zipmap_memo", {})
+            mk = (id(s), id(m.elt), tgt.id)
+            if mk not in memo:
+                class Sub(ast.NodeTransformer):
+                    def visit_Name(self_, n):
+                        return ast.copy_location(ast.Name(id=x0, ctx=n.ctx), n) if n.id == m.var else n
+                import copy
+                memo[mk] = (s, m.elt, ast.copy_location(ast.Assign(targets=[ast.Name(id=tgt.id, ctx=ast.Store())], value=Sub().visit(copy.deepcopy(m.elt))), s))
+                ast.fix_missing_locations(memo[mk][2])
+            pre.append(memo[mk][2])
+        memo = self.__dict__.setdefault("_zipmap_memo", {})
+        lk = (id(s), tuple(id(p) for p in pre))
+        if lk not in memo:
+            memo[lk] = (s, ast.copy_location(ast.For(target=s.target.elts[0], iter=it.args[0], body=pre + list(s.body), orelse=list(s.orelse), type_comment=None), s))
+        return memo[lk][1]
+
     def exec_for(self, s, st, fr):
+        z = self._zip_map_loop(s, st, fr)
+        if z is not None:
+            return self.exec_for(z, st, fr)
         parts = self._chain_args(s.iter) or self._generator_parts(s.iter, st, fr)
         if parts is not None and len(parts) >= 1 and (len(parts) > 1 or parts[0] is not s.iter) and not any(isinstance(n, ast.Break) for b in s.body for n in ast.walk(b)):
             # one loop over the concatenation == the loops over the parts, one after the other (no `break` in the body)
@@ -1609,6 +1786,36 @@ class Interp:
             self._quiet -= 1
             st.env = saved
 
+    def _call_pure_def(self, fn, call, st, fr):
+        """A nested def with loops / early returns called where statements cannot be hoisted (a comprehension condition, a
+        filter predicate): interpreted on a copy of the state; the value counts only if the body has no effect on the heap and
+        every path returns the same constant.  -> value or None."""
+        if getattr(self, "_pure_depth", 0) >= 2:
+            return None
+        from .loader import FuncInfo
+        callee = FuncInfo(fn.name, fn, fr.func.cls, fr.func.module, parent=fr.func)
+        st0 = st.copy()
+        n0 = len(st0.trace)
+        self._pure_depth = getattr(self, "_pure_depth", 0) + 1
+        self._quiet += 1
+        try:
+            outs = self.inline_call(call, callee, st0, fr)
+        except AnalysisError:
+            return None
+        finally:
+            self._quiet -= 1
+            self._pure_depth -= 1
+        val = None
+        for st1, v, ex in outs:
+            if ex is not None:
+                return None
+            if any(isinstance(ev, (Store, Mut)) and not ev.attr.startswith("$") for ev in flatten(st1.trace[n0:])):
+                return None
+            if not isinstance(v, Const) or (val is not None and val.v != v.v):
+                return None
+            val = v
+        return val
+
     def _call_lambda(self, fv, call, st, fr, effects):
         lam = fv.node
         params = [a.arg for a in lam.args.args]
@@ -1888,7 +2095,10 @@ class Interp:
             if lk and isinstance(e.value, ast.Name) and e.value.id == lk[0] and isinstance(e.slice, ast.Constant) and not self._quiet:
                 st.trace.append(KwRead(e.slice.value, e, fr.func, fr.stack))
             tag = f"{self.path_of(base, ast.unparse(e.value))}[{ast.unparse(e.slice)}]"
-            return self.value_for_type(tag, fr.ft.type_of(e))
+            typ = fr.ft.type_of(e)
+            if typ is None and isinstance(base, Unk) and base.typ and base.typ[0] == "dict" and len(base.typ) > 2:
+                typ = base.typ[2]   # an untyped parameter holding a typed map: the value knows what its entries are
+            return self.value_for_type(tag, typ)
         if isinstance(e, ast.Call):
             return self.eval_call(e, st, fr, effects)
         if isinstance(e, (ast.ListComp, ast.GeneratorExp, ast.SetComp)):
@@ -1938,6 +2148,12 @@ class Interp:
                 for c in g.ifs:
                     cp.append(self.canon(c, st, fr))
                 return CollV(key, preds, typ or fr.ft.type_of(g.iter), cpreds=cp)
+            if isinstance(g.target, ast.Name) and not g.ifs and isinstance(e, ast.ListComp) and not g.is_async \
+                    and not any(isinstance(n, (ast.Call, ast.NamedExpr, ast.Lambda)) for n in ast.walk(e.elt)):
+                m = MapV("comp~%d" % next(self._fresh), fr.ft.type_of(e))
+                m.key, m.var, m.elt, m.env = key, g.target.id, e.elt, dict(st.env)
+                m.mark, m.mark_ev = len(st.trace), (st.trace[-1] if st.trace else None)
+                return m
         elif e.generators and isinstance(e.elt, ast.Name) and isinstance(e.generators[-1].target, ast.Name) \
                 and e.elt.id == e.generators[-1].target.id and not isinstance(e, ast.GeneratorExp):
             # flattening comprehension `[x for outer in A for x in outer.B if p(x)]`: the elements are known only through
@@ -2017,6 +2233,8 @@ class Interp:
                 return self._call_lambda(fv, e, st, fr, effects)
             if isinstance(fv, FuncV) and isinstance(fv.node, ast.FunctionDef) and ("__call_%d" % id(e)) not in st.env:
                 r = self._call_simple_def(fv.node, e, st, fr, effects)
+                if r is None:
+                    r = self._call_pure_def(fv.node, e, st, fr)
                 if r is not None:
                     return r
             if isinstance(fv, BoundV) and fv.op is not None:
@@ -2134,6 +2352,17 @@ class Interp:
             if all(isinstance(c, ListV) for c in cols):
                 n = min(len(c.items) for c in cols)
                 return ListV([ListV([c.items[i] for c in cols], True, "tuple") for i in range(n)], True, "list")
+        if fname == "next" and len(e.args) in (1, 2) and not e.keywords and isinstance(e.args[0], (ast.GeneratorExp, ast.Call)):
+            # next(<generator over a known table>, default): the first element that passes, else the default
+            seq = self._eval_iterable(e.args[0], st, fr) if isinstance(e.args[0], ast.GeneratorExp) or \
+                (isinstance(e.args[0].func, ast.Name) and e.args[0].func.id in ("iter", "filter", "map")) else None
+            if isinstance(e.args[0], ast.Call) and isinstance(e.args[0].func, ast.Name) and e.args[0].func.id == "iter" and len(e.args[0].args) == 1:
+                seq = self._eval_iterable(e.args[0].args[0], st, fr)
+            if isinstance(seq, ListV):
+                if seq.items:
+                    return seq.items[0]
+                if len(e.args) == 2:
+                    return self.eval(e.args[1], st, fr, effects)
         if fname == "bool" and len(e.args) == 1:
             t = self.truth(e.args[0], st, fr)
             if t is not None:
@@ -2167,7 +2396,12 @@ class Interp:
         if fname in ("list", "tuple", "sorted", "set") and len(e.args) >= 1:
             inner = self._eval_iterable(e.args[0], st, fr)
             if isinstance(inner, CollV):
-                return CollV(inner.base, inner.preds, inner.typ, "set" if fname == "set" else "list", cpreds=inner.cpreds)
+                cv = CollV(inner.base, inner.preds, inner.typ, "set" if fname == "set" else "list", cpreds=inner.cpreds)
+                if fname == "sorted" and all(kw.arg == "reverse" for kw in e.keywords):
+                    cv.reverse = self._truth_of_value(self.eval(e.keywords[0].value, st, fr)) if e.keywords else False
+                elif fname in ("list", "tuple"):
+                    cv.reverse = inner.reverse
+                return cv
             if isinstance(inner, ListV) and fname in ("list", "tuple"):
                 return ListV(inner.items, True, fname)
             if isinstance(inner, ListV) and fname == "sorted" and not any(kw.arg == "key" for kw in e.keywords) and \
@@ -2177,15 +2411,24 @@ class Interp:
                 return ListV(items, True, "list")
             if fname == "set" and isinstance(inner, ListV):
                 return ListV(inner.items, True, "set")
+            if fname == "sorted" and len(e.args) == 1 and all(kw.arg == "reverse" for kw in e.keywords):
+                u = OrderedUnk(f"{fname}~{next(self._fresh)}:{ast.unparse(e.args[0])[:40]}", fr.ft.type_of(e))
+                rv = self.eval(e.keywords[0].value, st, fr) if e.keywords else FALSE
+                t = self._truth_of_value(rv)
+                u.reverse = t   # True / False / None (not decided)
+                return u
             return Unk(f"{fname}~{next(self._fresh)}:{ast.unparse(e.args[0])[:40]}", fr.ft.type_of(e))
         if ast.unparse(f) in ("itertools.chain", "chain") and e.args and not e.keywords:
             parts = [self._eval_iterable(a, st, fr) for a in e.args]
             if all(isinstance(x, ListV) for x in parts):
                 return ListV([y for x in parts for y in x.items], all(x.fresh for x in parts), "list")
             return Unk(f"chain~{next(self._fresh)}", fr.ft.type_of(e))
+        if fname == "dict" and not e.args and e.keywords and all(kw.arg for kw in e.keywords):
+            # dict(a=x, b=y) == {"a": x, "b": y}
+            return self.eval(ast.copy_location(ast.Dict(keys=[ast.Constant(kw.arg) for kw in e.keywords], values=[kw.value for kw in e.keywords]), e), st, fr, effects)
         if fname in ("list", "set", "dict") and not e.args:
             return ListV([], True, fname)
-        if fname == "filter" and len(e.args) == 2 and isinstance(e.args[0], ast.Lambda):
+        if fname == "filter" and len(e.args) == 2 and self._as_lambda(e.args[0], st) is not None:
             return self._eval_iterable(e, st, fr)
         if fname in ("int", "float") and len(e.args) == 1:
             v = self.eval(e.args[0], st, fr)
@@ -2271,14 +2514,29 @@ class Interp:
         t = fr.ft.type_of(e)
         return self.value_for_type(f"{ast.unparse(f)}()~{next(self._fresh)}", t) if t else Unk(f"{ast.unparse(f)}()~{next(self._fresh)}")
 
+    def _as_lambda(self, f, st):
+        """The function argument of map/filter as a one-parameter lambda: a lambda as written, or `lambda x: f(x)` for a
+        local function value (nested def, alias of a lambda)."""
+        if isinstance(f, ast.Lambda):
+            return f
+        if isinstance(f, ast.Name) and isinstance(st.env.get(f.id), FuncV):
+            memo = self.__dict__.setdefault("_lam_memo", {})
+            if id(f) not in memo:
+                x = "__x%d" % (f.lineno * 1000 + f.col_offset)
+                lam = ast.Lambda(args=ast.arguments(posonlyargs=[], args=[ast.arg(arg=x)], kwonlyargs=[], kw_defaults=[], defaults=[]),
+                                 body=ast.Call(func=ast.Name(id=f.id, ctx=ast.Load()), args=[ast.Name(id=x, ctx=ast.Load())], keywords=[]))
+                memo[id(f)] = (f, ast.fix_missing_locations(ast.copy_location(lam, f)))
+            return memo[id(f)][1]
+        return None
+
     def _eval_iterable(self, e, st, fr):
         """Evaluate map/filter/list/comprehension chains over abstracted collections to ListV."""
         if isinstance(e, ast.Call) and isinstance(e.func, ast.Name):
             n = e.func.id
             if n in ("list", "tuple", "set", "sorted") and e.args:
                 return self._eval_iterable(e.args[0], st, fr)
-            if n in ("map", "filter") and len(e.args) == 2 and isinstance(e.args[0], ast.Lambda):
-                lam = e.args[0]
+            if n in ("map", "filter") and len(e.args) == 2 and self._as_lambda(e.args[0], st) is not None:
+                lam = self._as_lambda(e.args[0], st)
                 src = self._eval_iterable(e.args[1], st, fr)
                 if isinstance(src, ListV) and len(lam.args.args) == 1:
                     out = []
